@@ -135,6 +135,27 @@ class ModuleModel:
                 for h in getattr(s, 'handlers', []) or []:
                     module_stmts(h.body)
         module_stmts(tree.body)
+        # module-level writes to containers other than the `T.update(OTHER)` form the program model folds
+        self.module_sites = {}
+
+        def module_effects(body):
+            for s in body:
+                if isinstance(s, (ast.FunctionDef, ast.AsyncFunctionDef, ast.ClassDef)):
+                    continue
+                for n in ast.walk(s):
+                    if isinstance(n, (ast.FunctionDef, ast.AsyncFunctionDef, ast.Lambda)):
+                        continue
+                    if isinstance(n, ast.Call) and isinstance(n.func, ast.Attribute) and isinstance(n.func.value, ast.Name) \
+                            and n.func.attr in MUTATORS:
+                        folded = (n.func.attr == 'update' and len(n.args) == 1 and not n.keywords and isinstance(s, ast.Expr)
+                                  and s.value is n and s in tree.body)
+                        if not folded:
+                            self.module_sites.setdefault(n.func.value.id, []).append(n)
+                    elif isinstance(n, ast.Subscript) and isinstance(n.ctx, (ast.Store, ast.Del)) and isinstance(n.value, ast.Name):
+                        self.module_sites.setdefault(n.value.id, []).append(n)
+                    elif isinstance(n, ast.AugAssign) and isinstance(n.target, ast.Name):
+                        self.module_sites.setdefault(n.target.id, []).append(n)
+        module_effects(tree.body)
         # function-level effects on module names
         for fn in ast.walk(tree):
             if not isinstance(fn, (ast.FunctionDef, ast.AsyncFunctionDef, ast.Lambda)):
@@ -151,6 +172,8 @@ class ModuleModel:
                     pass
 
     def written_by_functions(self, name):
+        if self.module_sites.get(name) and name not in self.facts.tables and name not in self.facts.sets:
+            return True
         return any(not self._shadowed(n, name) for (k, n) in self.table_sites.get(name, []))
 
     def is_logger(self, name):
@@ -168,6 +191,8 @@ class ModuleModel:
     def table_mode(self, name):
         """'closed': never written after module initialisation; 'extended': only `T.setdefault(k, T[...])` sites (existing keys
         keep their values, new keys map to existing values); 'unknown' otherwise."""
+        if self.module_sites.get(name):
+            return 'unknown'
         sites = [(k, n) for (k, n) in self.table_sites.get(name, []) if not self._shadowed(n, name)]
         if not sites:
             return 'closed'
